@@ -20,7 +20,7 @@ TRUSTED = ["solver optimality (tolerance 1e-5)"]
 ASSUMPTIONS = ["rewrites outside the listed group are not claimed"]
 
 REWRITES = ['minmax-neg', 'order', 'flip-sides', 'eq-as-two-ineq', 'bounds-as-rows', 'bounds-as-infnorm', 'elementwise', 'rescale',
-            'set-list-vs-args', 'set-eq-vs-bounds', 'ro-vs-dro1']
+            'set-list-vs-args', 'set-eq-vs-bounds', 'ro-vs-dro1', 'unit-norm']
 
 
 def gen(r):
@@ -122,6 +122,8 @@ def build(d, rw, front='ro'):
     nm = d['norm']
     e = x[:2] - 0.5
     k = nm['k'] * (3.0 if 'rescale' in rw else 1.0)
+    if 'unit-norm' in rw:
+        k = 1.0                                        # both sides divided by the positive factor: norm(e) <= r
     cons.append(k * rso.norm(e, np.inf if nm['p'] == 'inf' else int(nm['p'])) <= nm['r'] * k)
     if 'order' in rw:
         cons = cons[::-1]
@@ -222,7 +224,7 @@ def dro_expectation_spellings(ctx, seed):
 def run(ctx):
     for k in range(ctx.n(12, 150)):
         dro_expectation_spellings(ctx, int(ctx.rng.integers(2 ** 31)))
-    for k in range(ctx.n(40, 700)):
+    for k in range(ctx.n(60, 900)):
         seed = int(ctx.rng.integers(2 ** 31))
         r = np.random.default_rng(seed)
         d = gen(r); d['seed'] = seed
